@@ -640,7 +640,7 @@ class Exec:
         i = 0
         while i < len(lines):
             s = lines[i]
-            m = re.fullmatch(r'if \(Q_UNLIKELY\(!observed\[(\d+)\]\.connection \|\| observed\[(\d+)\]\.object != (a\d+)\)\) \{', s)
+            m = re.fullmatch(r'if \(Q_UNLIKELY\((.*observed\[\d+\].*)\)\) \{', s)
             if m:
                 i = self._observer(lines, i, m, st)
                 continue
@@ -704,30 +704,127 @@ class Exec:
             raise Unsupported('statement: ' + s)
         self.bad.append((st['pc'], f'control runs off the end of {label}'))
 
-    def _observer(self, lines, i, m, st):
-        k, k2, loc = int(m.group(1)), int(m.group(2)), m.group(3)
-        want = [
-            rf'QObject::disconnect\(observed\[{k}\]\.connection\);',
-            rf'if \({loc}\) \{{',
-            rf'observed\[{k}\]\.connection = QObject::connect\({loc}, QOverload<(.*?)>::of\(&([\w:]+)::(\w+)\), this->root_, update\);',
-            r'\}',
-            rf'observed\[{k}\]\.object = {loc};',
-            r'\}',
-        ]
-        if k != k2 or i + 6 >= len(lines) + 0 and False:
-            raise Unsupported('observer block shape')
-        ms = [re.fullmatch(w, lines[i + 1 + n]) for n, w in enumerate(want)]
-        if not all(ms):
-            raise Unsupported('observer block shape: ' + ' | '.join(lines[i:i + 7]))
-        cls, sig = ms[2].group(2), ms[2].group(3)
-        ov = [norm_cxx_type(a) for a in ms[2].group(1).split(',') if a.strip()]
+    # ---- observer blocks: interpreted statement by statement (not matched as one fixed shape) --------------------
+    # slot memory: obj (recorded object), valid (connection valid), target (object the connection listens to),
+    # sig (class, signal, overload of the connect statement that made it)
+    def _slot(self, st, k):
         if not self.uses_observers:
             raise Unsupported('observer used without observed array')
-        p = self.operand(('local', loc), st)
         if k not in st['obs']:
-            st['obs'][k] = {'obj': z3.Int(f'{self.tag}obs{k}.obj'), 'conn': z3.Bool(f'{self.tag}obs{k}.conn'), 'sig': None, 'init': True}
-        o = st['obs'][k]
-        upd = z3.Or(z3.Not(o['conn']), o['obj'] != p.t)
-        st['obs'][k] = {'obj': z3.If(upd, p.t, o['obj']), 'conn': z3.If(upd, p.t != 0, o['conn']),
-                        'sig': (cls, sig, ov), 'init': False, 'obj0': o.get('obj0', o['obj']), 'conn0': o.get('conn0', o['conn'])}
-        return i + 7
+            st['obs'][k] = {'obj': z3.Int(f'{self.tag}obs{k}.obj'), 'valid': z3.Bool(f'{self.tag}obs{k}.valid'),
+                            'target': z3.Int(f'{self.tag}obs{k}.target'), 'sig': None}
+        return st['obs'][k]
+
+    def _obs_cond(self, text, st):
+        """boolean expression over observed[k].connection / observed[k].object ==|!= aN / aN with ! || && ( )"""
+        toks = re.findall(r'observed\[\d+\]\.connection|observed\[\d+\]\.object|a\d+|nullptr|\|\||&&|==|!=|!|\(|\)', text)
+        if ''.join(toks) != text.replace(' ', ''):
+            raise Unsupported('observer condition: ' + text)
+        pos = [0]
+
+        def peek():
+            return toks[pos[0]] if pos[0] < len(toks) else None
+
+        def take():
+            t = toks[pos[0]]
+            pos[0] += 1
+            return t
+
+        def ptr(tok):
+            if tok == 'nullptr':
+                return z3.IntVal(0)
+            if tok.endswith('.object'):
+                return self._slot(st, int(re.search(r'\d+', tok).group(0)))['obj']
+            return self.operand(('local', tok), st).t
+
+        def atom():
+            t = take()
+            if t == '!':
+                return z3.Not(atom())
+            if t == '(':
+                v = disj()
+                if take() != ')':
+                    raise Unsupported('observer condition: ' + text)
+                return v
+            if t.endswith('.connection'):
+                return self._slot(st, int(re.search(r'\d+', t).group(0)))['valid']
+            if t.endswith('.object') or re.fullmatch(r'a\d+|nullptr', t):
+                if peek() in ('==', '!='):
+                    op = take()
+                    r = ptr(take())
+                    return ptr(t) == r if op == '==' else ptr(t) != r
+                return ptr(t) != 0
+            raise Unsupported('observer condition: ' + text)
+
+        def conj():
+            v = atom()
+            while peek() == '&&':
+                take()
+                v = z3.And(v, atom())
+            return v
+
+        def disj():
+            v = conj()
+            while peek() == '||':
+                take()
+                v = z3.Or(v, conj())
+            return v
+        v = disj()
+        if pos[0] != len(toks):
+            raise Unsupported('observer condition: ' + text)
+        return v
+
+    def _observer(self, lines, i, m, st):
+        cond = self._obs_cond(m.group(1), st)
+        # statements up to the matching brace
+        depth, j = 1, i + 1
+        guards = [cond]
+        while j < len(lines):
+            s = lines[j]
+            if s == '}':
+                depth -= 1
+                guards.pop()
+                j += 1
+                if depth == 0:
+                    return j
+                continue
+            g = z3.And(*guards)
+            mm = re.fullmatch(r'if \((a\d+)\) \{', s)
+            if mm:
+                guards.append(self.operand(('local', mm.group(1)), st).t != 0)
+                depth += 1
+                j += 1
+                continue
+            mm = re.fullmatch(r'QObject::disconnect\(observed\[(\d+)\]\.connection\);', s)
+            if mm:
+                o = dict(self._slot(st, int(mm.group(1))))
+                o['valid'] = z3.If(g, False, o['valid'])
+                st['obs'][int(mm.group(1))] = o
+                j += 1
+                continue
+            mm = re.fullmatch(r'observed\[(\d+)\]\.connection = QObject::connect\((a\d+), QOverload<(.*?)>::of\(&([\w:]+)::(\w+)\), this->root_, update\);', s)
+            if mm:
+                k = int(mm.group(1))
+                p = self.operand(('local', mm.group(2)), st).t
+                o = dict(self._slot(st, k))
+                sig = (mm.group(4), mm.group(5), [norm_cxx_type(a) for a in mm.group(3).split(',') if a.strip()])
+                if o['sig'] is not None and o['sig'] != sig:
+                    raise Unsupported(f'observer slot {k} connected to two different signals')
+                # connect() on a null sender yields an invalid connection
+                o['valid'] = z3.If(g, p != 0, o['valid'])
+                o['target'] = z3.If(g, p, o['target'])
+                o['sig'] = sig
+                st['obs'][k] = o
+                j += 1
+                continue
+            mm = re.fullmatch(r'observed\[(\d+)\]\.object = (a\d+|nullptr);', s)
+            if mm:
+                k = int(mm.group(1))
+                p = z3.IntVal(0) if mm.group(2) == 'nullptr' else self.operand(('local', mm.group(2)), st).t
+                o = dict(self._slot(st, k))
+                o['obj'] = z3.If(g, p, o['obj'])
+                st['obs'][k] = o
+                j += 1
+                continue
+            raise Unsupported('statement in observer block: ' + s)
+        raise Unsupported('observer block without closing brace')
